@@ -213,6 +213,9 @@ CATS = ("data", "rand", "unk", "urand")
 #   create_mode "num": patches are made by the library (patch_num=<number of centres>, probe_size=opts["probe"])
 #               instead of given centres / a patch column; the patch centres then come from a k-means run that
 #               is not seeded, so only the union of the stored records is compared
+#   source      "parquet" | "hdf5": Catalog.from_file on a file holding the same columns (written by the harness before the
+#               world starts, see prepare_create_input); "random": Catalog.from_random with a seeded BoxRandoms generator
+#               over the region of the patch centres (no weights / redshifts, centres given); default: Catalog.from_dataframe
 #   leafsize    Catalog.build_trees(leafsize=)
 #   force       a SECOND Catalog.build_trees call with force=<this> after the first one
 #   count_rr    yaw.autocorrelate(count_rr=)
@@ -244,30 +247,70 @@ def union_summary(cat):
     return {"union": {"fields": fields, "rows": sorted(rows), "num_records": nrec, "sum_weights": fhex(math.fsum(wsum))}}
 
 
-def stage_create(spec, cache, max_workers, which="data", opts=None):
-    """Catalog.from_dataframe on every rank; returns the summary of what this rank got"""
-    from yaw import Catalog
+FILE_EXT = {"parquet": ".pqt", "hdf5": ".hdf5"}
+
+
+def create_input_path(cache, opts):
+    return str(cache) + ".input" + FILE_EXT[opts["source"]]
+
+
+def prepare_create_input(spec, cache, which, opts):
+    """(harness, outside the world) the input file of a creation from a file: same columns as the data frame"""
     opts = opts or {}
+    if opts.get("source") not in FILE_EXT:
+        return
     cols = make_columns(spec, which)
+    path = create_input_path(cache, opts)
+    os.makedirs(os.path.dirname(path), exist_ok=True)
+    if opts["source"] == "parquet":
+        make_df(cols).to_parquet(path)
+    else:
+        import h5py
+        with h5py.File(path, "w") as fh:
+            for k, v in cols.items():
+                fh.create_dataset(k, data=np.asarray(v))
+
+
+def stage_create(spec, cache, max_workers, which="data", opts=None):
+    """Catalog.from_dataframe (or from_file / from_random, opts["source"]) on every rank; returns the summary of what this rank got"""
+    from yaw import Catalog
+    from yaw.coordinates import AngularCoordinates
+    opts = opts or {}
+    src = opts.get("source", "dataframe")
     kw = create_kwargs(spec)
     cs = opts["cs"] if "cs" in opts else spec["cs"]
     if "create" in opts.get("progress", ()):
         kw["progress"] = True
-    if opts.get("create_mode") == "num":
+    num = opts.get("create_mode") == "num"
+    if num:
         kw.pop("patch_centers", None)
         kw.pop("patch_name", None)
         kw["patch_num"] = spec["ncent"]
         if opts.get("probe") is not None:
             kw["probe_size"] = opts["probe"]
+
+    def call():
+        if src == "random":
+            from yaw.randoms import BoxRandoms
+            rkw = {k: v for k, v in kw.items() if k in ("progress", "patch_num", "probe_size")}
+            if not num:     # from_random has no patch_name: the centres of the spec are given
+                rkw["patch_centers"] = AngularCoordinates(np.deg2rad(np.asarray(centers(spec), dtype="f8")))
+            gen = BoxRandoms(19.0, 21.0 + 2.5 * (spec["ncent"] - 1), -6.0, -2.0, seed=spec["dseed"] + len(which))
+            return Catalog.from_random(cache, gen, 2 * spec["n"], chunksize=cs, max_workers=max_workers, overwrite=True, **rkw)
+        if src in FILE_EXT:
+            return Catalog.from_file(cache, create_input_path(cache, opts), chunksize=cs, max_workers=max_workers, overwrite=True, **kw)
+        return Catalog.from_dataframe(cache, make_df(make_columns(spec, which)), chunksize=cs, max_workers=max_workers,
+                                      overwrite=True, **kw)
+
+    if num:
         try:
-            cat = Catalog.from_dataframe(cache, make_df(cols), chunksize=cs, max_workers=max_workers, overwrite=True, **kw)
+            cat = call()
         except ValueError as err:
             if EMPTY_CENTRE in str(err):     # raised on every rank (replicated centres): the unseeded k-means left a centre without records
                 return {"union": None}
             raise
         return union_summary(cat)
-    cat = Catalog.from_dataframe(cache, make_df(cols), chunksize=cs, max_workers=max_workers, overwrite=True, **kw)
-    return catalog_summary(cat, with_center=spec["mode"] != "name")
+    return catalog_summary(call(), with_center=(spec["mode"] != "name" or src == "random"))
 
 
 def stage_rest(spec, caches, outdir, max_workers, is_root, ops=None, opts=None, mark=None):
